@@ -253,3 +253,10 @@ package stream
 //verif:ensures[retry-keeps-the-position] old(n.stop.positionFetched) ==> n.stop.position == old(n.stop.position) && n.stop.positionFetched && !called("Source.Stop")
 //verif:call[inject-the-remembered-position] (*pubNodeBase).InjectControlMessage requires arg3.Position == n.stop.position && n.stop.positionFetched && arg2 == ControlMessageStopSourceNode
 //verif:ensures[stop-error-means-no-injection] called("Source.Stop") && !succeeded("Source.Stop") ==> err != nil && !called("(*pubNodeBase).InjectControlMessage") && !n.stop.positionFetched
+
+// The message whose ack could not be obtained goes back to the FRONT of the queue (it is
+// the oldest one): teardown nacks the queue front to back, and nacks are ordered by the
+// source acker's semaphore, so any other position makes teardown wait on itself.
+//verif:closure of (*DestinationAckerNode).worker calling (*Deque).PushFront (n, errChan, msg, err)
+//verif:call[failed-message-back-to-the-front-under-the-queue-lock] (*Deque).PushFront requires arg1 == msg && called("(*Mutex).Lock") && !called("(*Mutex).Unlock")
+//verif:never (*Deque).PushBack
